@@ -44,50 +44,99 @@ var unescape = strings.NewReplacer(`\n`, "\n", `\r`, "\r", `\t`, "\t")
 // gapLexer is the harness' own tiny lexer for what may legitimately sit between statements:
 // whitespace, comments, the current delimiter, DELIMITER command lines and the header directive.
 type gapLexer struct {
-	delim string
-	hash  bool // '#' comments (MySQL)
+	delims map[string]bool // every delimiter that can be in force under some reading of the gaps so far
+	hash   bool            // '#' comments (MySQL)
+}
+
+func newGapLexer(delim string, hash bool) *gapLexer {
+	return &gapLexer{delims: map[string]bool{delim: true}, hash: hash}
 }
 
 // strip consumes trivia from gap and returns what is left (non-empty = SQL text outside any statement).
+// A gap can be read in more than one way when the delimiter itself looks like trivia (a delimiter that starts with
+// whitespace, "--" or the word DELIMITER): the gap is fine when some reading consumes all of it, and only readings
+// made of trivia are tried, so SQL text is never excused. Every delimiter that a successful reading ends with is
+// carried to the next gap. On failure the text at which the first dead end was met is returned.
 func (g *gapLexer) strip(gap string) string {
-	for {
-		switch r, w := utf8.DecodeRuneInString(gap); {
-		case gap == "":
-			return ""
-		case len(gap) > len("delimiter") && strings.EqualFold(gap[:len("delimiter")], "delimiter") && gap[len("delimiter")] == ' ':
-			line := gap
-			if i := strings.Index(gap, "\n"); i != -1 {
-				line, gap = gap[:i], gap[i:]
-			} else {
-				gap = ""
+	type key struct {
+		off   int
+		delim string
+	}
+	memo := map[key]map[string]bool{}
+	firstRest := ""
+	var walk func(off int, delim string) map[string]bool
+	walk = func(off int, delim string) map[string]bool {
+		rest := gap[off:]
+		if rest == "" {
+			return map[string]bool{delim: true}
+		}
+		k := key{off, delim}
+		if r, ok := memo[k]; ok {
+			return r
+		}
+		memo[k] = nil // every step advances, so there are no cycles; this only guards re-entry
+		var next []key
+		if len(rest) > len("delimiter") && strings.EqualFold(rest[:len("delimiter")], "delimiter") && rest[len("delimiter")] == ' ' {
+			line, n := rest, len(rest)
+			if i := strings.Index(rest, "\n"); i != -1 {
+				line, n = rest[:i], i
 			}
 			d := strings.TrimSpace(line[len("delimiter"):])
 			if len(d) >= 2 && strings.HasPrefix(d, "'") && strings.HasSuffix(d, "'") {
 				d = strings.ReplaceAll(d[1:len(d)-1], "''", "'")
 			}
+			nd := delim
 			if d != "" {
-				g.delim = unescape.Replace(d)
+				nd = unescape.Replace(d)
 			}
-		case g.delim != "" && strings.HasPrefix(gap, g.delim):
-			gap = gap[len(g.delim):]
-		case unicode.IsSpace(r):
-			gap = gap[w:]
-		case strings.HasPrefix(gap, "--"), g.hash && strings.HasPrefix(gap, "#"):
-			i := strings.Index(gap, "\n")
-			if i == -1 {
-				return ""
+			next = append(next, key{off + n, nd})
+		}
+		if delim != "" && strings.HasPrefix(rest, delim) {
+			next = append(next, key{off + len(delim), delim})
+		}
+		if r, w := utf8.DecodeRuneInString(rest); unicode.IsSpace(r) {
+			next = append(next, key{off + w, delim})
+		}
+		if strings.HasPrefix(rest, "--") || g.hash && strings.HasPrefix(rest, "#") {
+			if i := strings.Index(rest, "\n"); i == -1 {
+				next = append(next, key{len(gap), delim})
+			} else {
+				next = append(next, key{off + i + 1, delim})
 			}
-			gap = gap[i+1:]
-		case strings.HasPrefix(gap, "/*"):
-			i := strings.Index(gap[2:], "*/")
-			if i == -1 {
-				return ""
+		}
+		if strings.HasPrefix(rest, "/*") {
+			if i := strings.Index(rest[2:], "*/"); i == -1 {
+				next = append(next, key{len(gap), delim})
+			} else {
+				next = append(next, key{off + 2 + i + 2, delim})
 			}
-			gap = gap[2+i+2:]
-		default:
-			return gap
+		}
+		if len(next) == 0 && firstRest == "" {
+			firstRest = rest
+		}
+		res := map[string]bool{}
+		for _, n := range next {
+			for d := range walk(n.off, n.delim) {
+				res[d] = true
+			}
+		}
+		memo[k] = res
+		return res
+	}
+	ends := map[string]bool{}
+	for d := range g.delims {
+		for e := range walk(0, d) {
+			ends[e] = true
 		}
 	}
+	if len(ends) > 0 {
+		g.delims = ends
+		return ""
+	}
+	if firstRest == "" {
+		firstRest = gap
+	}
+	return firstRest
 }
 
 // Outcome feeds the classification.
@@ -103,10 +152,10 @@ func checkCase(c Case) (Outcome, error) {
 		return Outcome{Err: true}, nil // a clean error is a valid answer for any input
 	}
 	out := Outcome{Stmts: len(stmts)}
-	g := &gapLexer{delim: ";", hash: c.Opt == 1}
+	g := newGapLexer(";", c.Opt == 1)
 	hdr := 0
 	if m := reHeader.FindStringSubmatch(src); len(m) == 4 && m[1] == "-- " && m[2] == "delimiter" && m[3] != "" {
-		g.delim = unescape.Replace(m[3])
+		g = newGapLexer(unescape.Replace(m[3]), c.Opt == 1)
 		hdr = strings.Index(src, "\n") + 1 // the directive line itself
 	}
 	end := hdr // end of the previous statement in src
